@@ -18,16 +18,16 @@ import (
 
 // /verif/props/<id>.json
 type PropConfig struct {
-	ID         string       `json:"id"`
-	Packages   []string     `json:"packages"`
-	SweepFlags     []string `json:"sweep_flags"`     // flags given to swept functions that have no contract (zero-annotation sweep)
-	SweepFunctions []string `json:"sweep_functions"` // extra function regexps of the sweep
-	SweepTier      string   `json:"sweep_tier"`      // "" = every tier, "thorough" = thorough tier only
-	Functions  []string     `json:"functions"`   // regexps over full ssa function names; functions need not have a contract
-	Lemmas     []string     `json:"lemmas"`
-	Trusted    []string     `json:"trusted_base"`
-	Notes      []string     `json:"remainder"`
-	Bounded    []BoundedCfg `json:"bounded"`
+	ID             string       `json:"id"`
+	Packages       []string     `json:"packages"`
+	SweepFlags     []string     `json:"sweep_flags"`     // flags given to swept functions that have no contract (zero-annotation sweep)
+	SweepFunctions []string     `json:"sweep_functions"` // extra function regexps of the sweep
+	SweepTier      string       `json:"sweep_tier"`      // "" = every tier, "thorough" = thorough tier only
+	Functions      []string     `json:"functions"`       // regexps over full ssa function names; functions need not have a contract
+	Lemmas         []string     `json:"lemmas"`
+	Trusted        []string     `json:"trusted_base"`
+	Notes          []string     `json:"remainder"`
+	Bounded        []BoundedCfg `json:"bounded"`
 }
 
 type BoundedCfg struct {
